@@ -1,7 +1,7 @@
 //! C13 — global options are honoured wherever they appear.
 
 use crate::gen;
-use crate::render::{self, Stream, ALL_LAYOUT};
+use crate::render::{self, Cat, Stream, ALL_LAYOUT};
 use crate::sx::{self, Sx};
 use crate::term;
 use crate::tree::*;
@@ -35,12 +35,18 @@ pub fn judge(leading: &[Glob], tree: &Option<E>, choices: &[u16]) -> Verdict {
     if leading.is_empty() && tree.is_none() {
         return Verdict::Skip("empty input");
     }
-    let mut ch = Stream::new(choices, ALL_LAYOUT);
+    let mut ch = Stream::new(choices, ALL_LAYOUT | Cat::Glue as u32);
     let mut text = leading.iter().map(option_words).collect::<Vec<_>>().join(" ");
     if let Some(t) = tree {
         let Some(body) = render::variant(t, &mut ch) else { return Verdict::Skip("tree has no text form") };
         if !text.is_empty() {
-            text.push(' ');
+            // sometimes no blank between the leading run and a '(' or '!' that starts the expression
+            let first_punct = body.starts_with('(') || body.starts_with('!');
+            if first_punct && choices.first().map(|c| c % 5 == 4).unwrap_or(false) {
+                ch.glued = true;
+            } else {
+                text.push(' ');
+            }
         }
         text.push_str(&body);
     }
@@ -82,6 +88,7 @@ pub fn judge(leading: &[Glob], tree: &Option<E>, choices: &[u16]) -> Verdict {
     }
     let (opts, x) = match parsed {
         Ok(r) => r,
+        Err(_) if ch.glued => return Verdict::Skip("a spelling without blank next to punctuation was rejected (not asserted either way)"),
         Err(e) => return Verdict::Fail(format!("{text:?} (options {all:?}) rejected: {e}")),
     };
     let got = from_ast(&x);
@@ -145,7 +152,7 @@ pub fn judge(leading: &[Glob], tree: &Option<E>, choices: &[u16]) -> Verdict {
 }
 
 fn case_json(leading: &[Glob], tree: &Option<E>, choices: &[u16]) -> Value {
-    let mut ch = Stream::new(choices, ALL_LAYOUT);
+    let mut ch = Stream::new(choices, ALL_LAYOUT | Cat::Glue as u32);
     let mut text = leading.iter().map(option_words).collect::<Vec<_>>().join(" ");
     if let Some(b) = tree.as_ref().and_then(|t| render::variant(t, &mut ch)) {
         text = format!("{text} {b}");
